@@ -1,7 +1,7 @@
 //! Executing scenarios: in this process, or in a child process that may crash.
 
 use std::io::{BufRead, BufReader, Write};
-use std::process::{Child, ChildStdin, ChildStdout, Command, Stdio};
+use std::process::{Child, ChildStdin, Command, Stdio};
 
 use crate::core::{Outcome, Violation};
 use crate::scenario::Scenario;
@@ -9,7 +9,7 @@ use crate::scratch;
 
 pub struct ChildWorker {
     prop: String,
-    child: Option<(Child, ChildStdin, BufReader<ChildStdout>)>,
+    child: Option<(Child, ChildStdin, std::sync::mpsc::Receiver<String>)>,
     pub crashes: u64,
 }
 
@@ -26,30 +26,40 @@ impl ChildWorker {
             .spawn().map_err(|e| format!("cannot spawn worker: {}", e))?;
         let stdin = child.stdin.take().unwrap();
         let stdout = BufReader::new(child.stdout.take().unwrap());
-        self.child = Some((child, stdin, stdout));
+        // A reader thread, so that waiting for the reply can time out.
+        let (tx, rx) = std::sync::mpsc::channel::<String>();
+        std::thread::spawn(move || { for line in stdout.lines() { match line { Ok(l) => if tx.send(l).is_err() { break; }, Err(_) => break } } });
+        self.child = Some((child, stdin, rx));
         Ok(())
     }
 
-    /// Runs one scenario in the child. A crash of the child is reported as a violation.
+    /// Runs one scenario in the child. A crash or a hang of the child is reported as a violation.
     pub fn run(&mut self, scn: &Scenario) -> Outcome {
         if self.child.is_none() {
             if let Err(e) = self.spawn() { return Outcome::default().fail(Violation::new(&self.prop, "harness", "spawn", e)); }
         }
+        let limit = std::env::var("VERIF_HANG_SECS").ok().and_then(|s| s.parse::<u64>().ok()).unwrap_or(60);
         let line = serde_json::to_string(scn).expect("scenario serializes");
-        let (child, stdin, stdout) = self.child.as_mut().unwrap();
+        let (child, stdin, rx) = self.child.as_mut().unwrap();
         let sent = writeln!(stdin, "{}", line).and_then(|_| stdin.flush());
-        let mut reply = String::new();
-        let got = if sent.is_ok() { stdout.read_line(&mut reply).unwrap_or(0) } else { 0 };
-        if got > 0 {
-            if let Ok(o) = serde_json::from_str::<Outcome>(reply.trim_end()) { return o; }
+        let mut hung = false;
+        if sent.is_ok() {
+            match rx.recv_timeout(std::time::Duration::from_secs(limit)) {
+                Ok(reply) => { if let Ok(o) = serde_json::from_str::<Outcome>(reply.trim_end()) { return o; } },
+                Err(std::sync::mpsc::RecvTimeoutError::Timeout) => { hung = true; },
+                Err(_) => {},
+            }
         }
-        // The child died (or produced garbage): collect its status and clean up after it.
+        // The child died, hung, or produced garbage: collect its status and clean up after it.
         let pid = child.id();
         let _ = child.kill();
         let status = child.wait();
         self.child = None;
         self.crashes += 1;
         scratch::cleanup_pid(pid);
+        if hung {
+            return Outcome::default().fail(Violation::new(&self.prop, "hang", scn.kind(), format!("the scenario did not finish within {} s and was killed", limit)));
+        }
         let how = match status {
             Ok(st) => {
                 use std::os::unix::process::ExitStatusExt;
@@ -64,7 +74,7 @@ impl ChildWorker {
 
 impl Drop for ChildWorker {
     fn drop(&mut self) {
-        if let Some((mut child, stdin, _)) = self.child.take() {
+        if let Some((mut child, stdin, _rx)) = self.child.take() {
             drop(stdin);
             let _ = child.wait();
         }
